@@ -197,6 +197,9 @@ class NICObservation(AbstractObservation, discriminator="network-interface"):
                         for port in self.monitored_traffic[protocol]:
                             obs["TRAFFIC"][protocol][port] = {"inbound": 0, "outbound": 0}
 
+        if self.include_nmne and not self.capture_nmne:
+            # the space declares NMNE whenever include_nmne is set; nothing is captured, so report no events
+            obs.update({"NMNE": {"inbound": 0, "outbound": 0}})
         if self.capture_nmne and self.include_nmne:
             obs.update({"NMNE": {}})
             direction_dict = nic_state["nmne"].get("direction", {})
